@@ -224,7 +224,7 @@ TagTok(n, at, g) == [t |-> "open", n |-> n, g |-> g, attrs |-> at]
 \*   [a |-> "style", e]     style={ T }: a style attribute value (T1 a declaration string, T2 a map with one declaration)
 \*   [a |-> "cssclass"]     class={ boxed() }: the class of a css template; its <style> element is written in front of
 \*                          the start tag, once per rendering (a "def" token, see Dedupe)
-\*   [a |-> "scriptcall"]   onclick={ greet("x") }: a call of a script template; the <script> element defining the
+\*   [a |-> "scriptcall", n] onclick={ greet("x") }: a call of a script template (n: the handler attribute); the <script> element defining the
 \*                          function is written in front of the start tag, once per rendering
 \* What a spread map contributes, in key order (RenderAttributes sorts the keys). M1 holds one string value;
 \* M2 holds one entry of every value kind the runtime distinguishes: string, *string, bool, *bool,
@@ -252,7 +252,7 @@ DenAttrs(at, env) ==
                       [] a.a = "url"        -> [pairs |-> << [n |-> "href", v |-> IF a.u = "U2" THEN "UBAD" ELSE a.u] >>, evs |-> << a.u >>]
                       [] a.a = "style"      -> [pairs |-> << [n |-> "style", v |-> a.e] >>, evs |-> << a.e >>]
                       [] a.a = "cssclass"   -> [pairs |-> << [n |-> "class", v |-> "CSSB"] >>, evs |-> <<>>]
-                      [] a.a = "scriptcall" -> [pairs |-> << [n |-> "onclick", v |-> "SCRG"] >>, evs |-> <<>>]
+                      [] a.a = "scriptcall" -> [pairs |-> << [n |-> a.n, v |-> "SCRG"] >>, evs |-> <<>>]
              defs == CASE a.a = "cssclass"   -> << "cssB" >>
                        [] a.a = "scriptcall" -> << "scriptG" >>
                        [] OTHER -> <<>>       \* (conditional attributes never hold them in this vocabulary)
